@@ -21,7 +21,7 @@ RULE = (
     "Non-trivial = c >= 1 (so a bound equal to c is exercised) and at least one node inside the searched region lacks the "
     "attribute, or c >= 2 (find must raise). Cases hashed for distinctness."
     ' Also: interdependent filter_/stop closures compared with PreOrderIter on fresh copies; values whose __eq__ raises AttributeError; callbacks failing with TypeError on their second call.'
-    ' Rounds 11-14: every exception class from callbacks, classes as predicates, fractional maxlevels and count bounds, callable values.'
+    ' Rounds 11-14: every exception class from callbacks, classes as predicates, fractional maxlevels and count bounds, callable values. Round 16: every *_by_attr parameter by keyword (node=, value=).'
 )
 ASSUMPTIONS = [
     "reference result = reference pre-order restricted as in C06",
@@ -406,6 +406,9 @@ def _once(case, acc, tree, labels):
                 outcome(anytree.findall_by_attr, start, value, name, maxlevel, mincount, maxcount),
                 outcome(cachedsearch.findall_by_attr, start, value, name=name, maxlevel=maxlevel, mincount=mincount, maxcount=maxcount),
                 outcome(cachedsearch.findall_by_attr, start, value, name, maxlevel, mincount, maxcount),
+                # every parameter by keyword, the searched value included (round 16: a wrapper that drops keywords that are None)
+                outcome(search.findall_by_attr, node=start, value=value, name=name, maxlevel=maxlevel, mincount=mincount, maxcount=maxcount),
+                outcome(cachedsearch.findall_by_attr, node=start, value=value, name=name, maxlevel=maxlevel, mincount=mincount, maxcount=maxcount),
             ):
                 if not same_outcome(out, other):
                     raise Violation("findall_by_attr-variants", "mincount=%r maxcount=%r" % (mincount, maxcount))
@@ -424,7 +427,7 @@ def _once(case, acc, tree, labels):
         good = out[0] == "CountError"
     if not good:
         raise Violation("find_by_attr", "matches=%d outcome=%r" % (ca, out[0]))
-    for other in (outcome(anytree.find_by_attr, start, value, name, maxlevel), outcome(cachedsearch.find_by_attr, start, value, name=name, maxlevel=maxlevel), outcome(cachedsearch.find_by_attr, start, value, name, maxlevel)):
+    for other in (outcome(anytree.find_by_attr, start, value, name, maxlevel), outcome(cachedsearch.find_by_attr, start, value, name=name, maxlevel=maxlevel), outcome(cachedsearch.find_by_attr, start, value, name, maxlevel), outcome(search.find_by_attr, node=start, value=value, name=name, maxlevel=maxlevel), outcome(cachedsearch.find_by_attr, node=start, value=value, name=name, maxlevel=maxlevel)):
         if not same_outcome(out, other):
             raise Violation("find_by_attr-variants", "variants disagree")
 
